@@ -578,7 +578,7 @@ def loop_cond(b, lp):
     return ("other", "?")
 
 
-PROGRESS = re.compile(r"(::read_\w+$)|(::skip$)|(::seek$)|(::write_\w+$)|(::push$)|(::next$)|(EncodedStringReader>::)|(::from_stream$)|(::pop$)|(::remove$)")
+PROGRESS = re.compile(r"(FnMut::call_mut$)|(::read_\w+$)|(::skip$)|(::seek$)|(::write_\w+$)|(::push$)|(::next$)|(EncodedStringReader>::)|(::from_stream$)|(::pop$)|(::remove$)")
 
 
 def loop_progress(b, lp):
